@@ -238,12 +238,17 @@ def oracle_data(case):
     raw = _as_33_bytes(b)
     p = _check_serialised(kind, variant, cc, sync, pdu, raw)
 
+    # a buffer that was handed out is not rewritten by later serialisations (shared scratch buffers)
+    st, kept = call(b.as_bits)
+    kept_copy = _ba(kept)
     # scribble-and-repeat on every buffer the serialisers hand out
     _repeat_after_scribble(pdu.as_bits, "pdu.as_bits")
     _repeat_after_scribble(b.as_bits, "assembled_burst.as_bits")
     _repeat_after_scribble(p.as_bits, "parsed_burst.as_bits")
     if _as_33_bytes(b) != raw or _as_33_bytes(p) != raw:
         raise Fail("repeated_call_equal_after_scribbling_on_returned_buffer", "as_bytes differs", raw.hex(), klass="as_bytes")
+    if _ba(kept) != kept_copy or kept_copy != _from_bytes(raw):
+        raise Fail("earlier_result_unchanged_by_later_call", _diffpos(_ba(kept), kept_copy), "no difference", klass="burst.as_bits")
 
 
 # ---------------------------------------------------------------------------------------------- reuse of objects
@@ -351,10 +356,13 @@ def oracle_reuse(case):
         first = _warm(b)
         if first != bytes1:
             raise Fail("reused_burst_serialises_current_state", {"step": "initial", **_diffpos(_from_bytes(first), _from_bytes(bytes1))}, "bytes of a freshly assembled burst", klass=mode)
+        st, kept = call(b.as_bits)
         what = retarget(b, s1, s2, "replace" if mode == "parsed" else mode)
         second = _warm(b)
         if second != bytes2:
             raise Fail("reused_burst_serialises_current_state", {"step": "state 1 -> 2", "changed": what, **_diffpos(_from_bytes(second), _from_bytes(bytes2))}, "bytes of a freshly assembled burst", klass=mode)
+        if _ba(kept) != _from_bytes(bytes1):  # checked while the burst carries the OTHER state
+            raise Fail("earlier_result_unchanged_by_later_call", _diffpos(_ba(kept), _from_bytes(bytes1)), "no difference", klass=f"reuse:{mode}")
         what = retarget(b, s2, s1, "replace" if mode == "parsed" else mode)
         third = _as_33_bytes(b)
         if third != bytes1:
